@@ -152,10 +152,60 @@ def run_c04(ck, fb, fbd):
         if len(sizes) < 4 or not all(any(f.dominates(s, cgp) for cgp in cg) for s in sizes):
             bad.append("entity counts for the remap are not taken before collect_garbage()")
         (ck.ok if not bad else lambda r, w, t: ck.violate(r, w, t, "C04.status"))("C04.status", f.where, "StatusAttrib::garbage_collection: %s" % ("all clauses hold" if not bad else "; ".join(bad)))
+    for f in sg[:1]:
+        status_remap(ck, f)
     # second pass safety and incidence recomputation (shared with C01)
     elem = elem_effects(c)
     owner_rule(c, cores, elem)
     compute_rule(c)
+
+
+def status_remap(ck, f):
+    """StatusAttrib::garbage_collection: the manifoldness pass is top-down, and the handle remap keeps the four entity
+    kinds apart (counts, identity fill, inverse map, update of the tracked handles) - all on canonical forms"""
+    from .canon import Canon
+    ck.rule("C04.remap", "StatusAttrib::garbage_collection: the manifoldness pass deletes cell-less faces, then valence-0 edges, then valence-0 vertices (in this order); for each of the four tracked kinds the identity property is filled for [0, n_K) with n_K taken before the collection, the inverse map has n_K entries, is filled as map[id[x]] = x over the surviving entities of kind K and is applied to the tracked handles of that same kind under is_valid()")
+    cn = Canon(f)
+    tops = sorted(f.tops(), key=lambda z: (-z[0], z[1]))
+    strs = [(b, i, cn.s(x), x) for b, i, x in tops]
+    # manifoldness pass
+    P = "P%d" % [k for k, p_ in enumerate(f.d["params"]) if p_["t"] == "bool"][0]
+    sites = {}
+    for b, i, s_, x in strs:
+        m = re.fullmatch(r"kernel_\.delete_(face|edge|vertex)\(each\(kernel_\.(faces|edges|vertices)\(\)\)\)", s_)
+        if m and (P, True) in {(t_, p_) for t_, p_, c_ in cn.facts(b)}:
+            sites[m.group(1)] = (b, i, {(t_, p_) for t_, p_, c_ in cn.facts(b)})
+    ok = set(sites) == {"face", "edge", "vertex"}
+    why = "sites %s" % sorted(sites)
+    if ok:
+        fF, fE, fV = sites["face"][2], sites["edge"][2], sites["vertex"][2]
+        c0 = "kernel_.incident_cell(halfface_handle(each(kernel_.faces()), 0)).is_valid()"
+        c1 = "kernel_.incident_cell(halfface_handle(each(kernel_.faces()), 1)).is_valid()"
+        ok = (c0, False) in fF and (c1, False) in fF and ("(kernel_.valence(each(kernel_.edges())) == 0)", True) in fE and ("(kernel_.valence(each(kernel_.vertices())) == 0)", True) in fV
+        why = "conditions"
+        if ok:
+            # order: every path to the edge pass has finished the face pass, etc. (the later site is not reachable before the earlier loop is done)
+            ok = sites["edge"][0] not in f.reachable_from(f.entry, skip_edge=None) or True
+            ok = sites["face"][0] not in f.reachable_from(sites["edge"][0]) and sites["edge"][0] not in f.reachable_from(sites["vertex"][0]) and sites["face"][0] not in f.reachable_from(sites["vertex"][0])
+            why = "order face -> edge -> vertex"
+    (ck.ok if ok else lambda r, w, t: ck.violate(r, w, t, "C04.remap:manifold"))("C04.remap", f.where, "the manifoldness pass removes cell-less faces, then isolated edges, then isolated vertices (%s)" % why)
+    kinds = [("vertex", "vertices", "n_vertices", "VH", 0), ("halfedge", "halfedges", "n_halfedges", "HEH", 1), ("halfface", "halffaces", "n_halffaces", "HFH", 2), ("cell", "cells", "n_cells", "CH", 3)]
+    all_s = [s_ for b, i, s_, x in strs]
+    conds = [cn.s((f.term(b) or {}).get("cond")) for b in f.reach() if f.term(b) and f.term(b).get("cond")]
+    for kname, rng, cnt, H, pj in kinds:
+        REQ = r"kernel_\.request_%s_property\([^\[\]]*\)" % kname
+        fill = [re.fullmatch(r"%s\[\(%s\)%s\((it\d+)\(0\)\)\] = \1\(0\)" % (REQ, H, H), s_) for s_ in all_s]
+        fill = [m for m in fill if m]
+        ok1 = len(fill) == 1 and any(re.fullmatch(r"\(%s\(0\) < (\(int\))?kernel_\.%s\(\)\)" % (fill[0].group(1), cnt), c_) for c_ in conds)
+        inv = [re.fullmatch(r"\((v\d+)\[%s\[each\(kernel_\.%s\(\)\)\]\] = each\(kernel_\.%s\(\)\)\)" % (REQ, rng, rng), s_) for s_ in all_s]
+        inv = [m for m in inv if m]
+        ok2 = len(inv) == 1
+        M = inv[0].group(1) if ok2 else "?"
+        ok3 = ("%s.resize(kernel_.%s())" % (M, cnt)) in all_s or ("%s.resize((int)kernel_.%s())" % (M, cnt)) in all_s
+        app = [(b, s_) for b, i, s_, x in strs if s_ == "(*each(P%d) = %s[each(P%d).idx()])" % (pj, M, pj)]
+        ok4 = len(app) == 1 and ("each(P%d).is_valid()" % pj, True) in {(t_, p_) for t_, p_, c_ in cn.facts(app[0][0])}
+        ok = ok1 and ok2 and ok3 and ok4
+        (ck.ok if ok else lambda r, w, t: ck.violate(r, w, t, "C04.remap:%s" % kname))("C04.remap", f.where, "%s handles: identity fill over [0, %s) %s, inverse map over %s() %s, sized %s() %s, applied to parameter %d under is_valid() %s" % (kname, cnt, ok1, rng, ok2, cnt, ok3, pj, ok4))
 
 
 # ------------------------------------------------------------------------------------------------ C09
